@@ -84,7 +84,7 @@ def _c14_miri(tier, seed, outdir, harness, target):
              ("p256", 1 + 8 * 2), ("p256", 1 + 8 * 17), ("secp256k1-tr", 1 + 8 * 5), ("ristretto255", 1 + 8 * 18), ("ed448", 1 + 8 * 3),
              ("ed25519", 1 + 8 * 24), ("secp256k1", 1 + 8 * 24 + 6 * 2)]
     env = dict(os.environ)
-    env.update({"MIRIFLAGS": "-Zmiri-disable-isolation", "FV_TINY": "1", "CARGO_TARGET_DIR": os.path.join(target, "miri"), "CARGO_NET_OFFLINE": "true"})
+    env.update({"MIRIFLAGS": "-Zmiri-disable-isolation", "FV_TINY": "900", "CARGO_TARGET_DIR": os.path.join(target, "miri"), "CARGO_NET_OFFLINE": "true"})
     mdir = os.path.join(outdir, "miri")
     os.makedirs(mdir, exist_ok=True)
     b = subprocess.run(["cargo", "+nightly", "miri", "build", "--offline", "--bin", "fv"], cwd=harness, env=env, stdout=subprocess.PIPE, stderr=subprocess.STDOUT, text=True)
@@ -117,7 +117,8 @@ def _c14_miri(tier, seed, outdir, harness, target):
             stats["clean"] += 1
             try:
                 r = json.load(open(glob.glob(os.path.join(mdir, f"{suite}.{item}", "*.json"))[0]))
-                stats["decodes"] += r["counts"].get("binary_decodes", 0) + r["counts"].get("protocol_calls", 0)
+                stats["decodes"] += r["counts"].get("binary_decodes", 0) + r["counts"].get("protocol_calls", 0) - r["counts"].get("skipped_after_interpreter_budget", 0)
+                stats["skipped_after_budget"] = stats.get("skipped_after_budget", 0) + r["counts"].get("skipped_after_interpreter_budget", 0)
                 for v in r["violations"]:
                     viols.append(v)
             except Exception:
@@ -126,6 +127,33 @@ def _c14_miri(tier, seed, outdir, harness, target):
             stats["other"].append({"suite": suite, "item": item, "rc": rc, "tail": txt[-300:]})
     stats["wall_s"] = round(time.time() - t0)
     return viols, {"miri": stats}
+
+
+def _c13_second_phase(prop, tier, seed, outdir, fv, limit_child, prelude):
+    """every state file written by a shard is resumed in a fresh process with the *opposite* history
+    (saver used another ciphersuite first -> resumer does not, and vice versa)"""
+    import subprocess
+    import time
+    t0 = time.time()
+    results, dead, procs = [], [], []
+    for k, f in enumerate(sorted(glob.glob(os.path.join(outdir, "C13.xproc.*.json")))):
+        st = json.load(open(f))
+        cmd = [fv, prop, "--suite", st["suite"], "--tier", tier, "--seed", str(seed), "--out", outdir, "--shard", f"{900 + k}/1000", "--resume", f]
+        if not st.get("saver_prelude"):
+            cmd += ["--prelude", prelude[st["suite"]]]
+        procs.append((st["suite"], 900 + k, subprocess.Popen(cmd, stdout=subprocess.DEVNULL, stderr=subprocess.DEVNULL, preexec_fn=limit_child)))
+    for s, k, p in procs:
+        try:
+            rc = p.wait(timeout=600)
+        except subprocess.TimeoutExpired:
+            p.kill()
+            rc = None
+        rf = os.path.join(outdir, f"{prop}.{s}.{k}.json")
+        if rc == 0 and os.path.exists(rf):
+            results.append(json.load(open(rf)))
+        else:
+            dead.append({"suite": s, "shard": k, "why": "died", "rc": rc, "wal": None, "stderr": ""})
+    return results, dead, time.time() - t0
 
 
 def _c18_min(m, tier):
@@ -229,9 +257,10 @@ PROPS = {
     },
     "C13": {
         "level": "fault_enumeration", "eval_keys": ["resumed_runs"],
-        "rule": "one evaluation = one participant's protocol run re-executed with its state encoded, dropped and decoded at one subset of its round boundaries (every subset in binary, every subset in JSON, random mixes), all later outputs compared byte-for-byte with the uninterrupted run; distinct = (protocol, n, t, persistence pattern)",
-        "minimum": _min_counts(resumed_runs=(8000, 60000)),
-        "assumptions": COMMON_ASSUME + ["a restart is modelled as encode / drop / decode inside one process"],
+        "rule": "one evaluation = one participant's protocol run re-executed with its state encoded, dropped and decoded at one subset of its round boundaries (every subset in binary, every subset in JSON, random mixes), all later outputs compared byte-for-byte with the uninterrupted run; plus a second phase in which every state file saved by one process is resumed by a fresh process with the opposite history (one of the two used another ciphersuite first) and its outputs are compared with the saver's; distinct = (protocol, n, t, persistence pattern)",
+        "second_phase": _c13_second_phase,
+        "minimum": _min_counts(resumed_runs=(8000, 60000), cross_process_resumes=(12, 12), cross_process_outputs_compared=(120, 120)),
+        "assumptions": COMMON_ASSUME + ["a restart is modelled as encode / drop / decode inside one process for the exhaustive boundary subsets, and as a real second OS process for one dealer + signing + 2-of-2 DKG scenario per shard"],
     },
     "C14": {
         "level": "exploration", "eval_keys": ["binary_decodes", "json_decodes", "protocol_calls", "consume_calls"],
@@ -336,9 +365,9 @@ MANIFEST_TEXT = {
     "C12": {"technique": "runtime monitoring with differential oracle: re-encode equality on exhaustive single-bit/single-byte deviations; Python strict decoders supply adversarial encodings and judge a sample",
             "text": "Exploration: 24 wire types x 6 suites. Round trips (binary, JSON) on values from real runs; primitive decoders on every bit flip, every byte substitution, length variants, boundary integers, random strings, small/mixed-order and non-canonical points generated by the reference; containers on header sweeps, every truncation, embedded invalid primitives, cross-suite encodings.",
             "note": "Found and led to the repair of SEC1 tag 0x05 and the ignored Ed448 scalar byte (known_findings.json)."},
-    "C13": {"technique": "runtime monitoring over crash points: encode/drop/decode at every subset of round boundaries, byte-equality of all later outputs",
+    "C13": {"technique": "runtime monitoring over crash points: encode/drop/decode at every subset of round boundaries, byte-equality of all later outputs; cross-process save/resume with differing process histories",
             "text": "Fault enumeration over crash points: DKG, distributed refresh, dealer keygen, dealer refresh, repair, coordinator; every participant x every subset of boundaries in binary and in JSON plus random mixes.",
-            "note": "Restart modelled in-process."},
+            "note": "Exhaustive boundary subsets are restarted in-process; one scenario per shard is resumed in a real second process."},
     "C14": {"technique": "sanitizer-style runtime monitoring: catch_unwind + panic hook + rustc overflow/debug assertions + subprocess isolation with write-ahead input record",
             "text": "Exploration: structure-aware mutation of every type's binary and JSON encodings, hostile wire-representable peer material for every protocol entry point (empty/oversized/duplicated/inconsistent/cross-group, commitment lengths wrapping u16), and mutate-decode-consume chains. A panic, abort or signal death is the refutation event.",
             "note": "A clean run is not a proof of panic-freedom; inputs the mutators never produce are not covered."},
